@@ -12,14 +12,16 @@ PROPERTY = "C06"
 CONTRACTS = ["contracts.c06"]
 LEVEL = "exploration"
 EXPLANATION = (
-    "Contract-based: _get_file_hash_map (one entry per path considered, keyed by the path relative to the notes directory, "
-    "value = hash of that file) is verified for every bounded list of paths over the file-system model. "
-    "The equivalence 'history of edits interleaved with reindex runs == fresh index of the final files' is checked on "
-    "generated histories (edit / add / delete / move notes, add / delete / rename pages, header edits, reindex with and "
-    "without explicit paths, days advancing) through the real handlers and SQLite, comparing canonical dumps (bounded). "
-    "Known finding F9 (notes of a deleted or renamed page survive) is reproduced; histories without page deletion are still checked."
+    "Contract-based (bounded-symbolic): _get_file_hash_map - the map a reindex compares with the stored one - has one entry per "
+    "path considered, keyed by the path relative to the notes directory, whose value is the digest of that file's current "
+    "content, lists nothing else and leaves the file system untouched (verified for every list of at most 3 / 4 paths over the "
+    "file-system model, contents and names fully symbolic; _hash_file and strip_zdir through assumed contracts). "
+    "The equivalence 'history of edits interleaved with reindex runs == fresh index of the final files' itself is NOT decided "
+    "deductively: it is checked on generated histories (edit / add / delete / move notes, add / delete / rename pages, header "
+    "edits, old-mtime edits, reindex with and without explicit paths, days advancing, directed wildcard / case page-name "
+    "pairs) through the real handlers and SQLite, comparing canonical dumps (bounded)."
 )
-ASSUMPTIONS = ["A-FS for the contract part", "SHA-256 collisions do not occur on the files involved"]
+ASSUMPTIONS = ["A-FS for the contract part", "A-SHA: _hash_file returns a function of the file content (assumed contract); SHA-256 collisions do not occur on the files involved"]
 TRUSTED = ["SQLAlchemy/SQLite, antlr4 (end-to-end part runs the real stack)", "z3 5.1 / cvc5 1.0.3", "pyvc symbolic interpreter (engine/)"]
 
 
@@ -36,6 +38,7 @@ def run_history(pages, rng, nsteps):
 
     day = dt.date(2024, 4, 1)
     ops = []
+    history: list = []  # (page, content) pairs seen so far
     with Lab() as lab:
         for rel, t in pages.items():
             lab.write(rel, t)
@@ -47,6 +50,7 @@ def run_history(pages, rng, nsteps):
             with freeze_time(day.isoformat() + " 09:00:00"):
                 files = lab.files()
                 names = sorted(files)
+                history.extend((k, v) for k, v in files.items() if (k, v) not in history)
                 r = rng.random()
                 if r < 0.3 and names:
                     rel = rng.choice(names)
@@ -69,7 +73,21 @@ def run_history(pages, rng, nsteps):
                         lab.write(rel, "\n".join(lines))
                         old_t = (lab.zdir / rel).stat().st_mtime - 7 * 86400
                         os.utime(lab.zdir / rel, (old_t, old_t)); ops.append(("edit-old-mtime", rel, i))
-                elif r < 0.45 and names:
+                elif r < 0.42 and names:
+                    # edit inside a continuation line (bullets) of a multi-line note
+                    rel = rng.choice(names)
+                    lines = files[rel].split("\n")
+                    idx = [i for i, ln in enumerate(lines) if ln.startswith("  ") and ln.strip()]
+                    if idx:
+                        i = rng.choice(idx)
+                        lines[i] += " more"
+                        lab.write(rel, "\n".join(lines)); ops.append(("edit-continuation", rel, i))
+                elif r < 0.45 and history:
+                    # a page gets back a content it had earlier (undo, git checkout)
+                    rel, text = rng.choice(history)
+                    if (lab.zdir / rel).exists():
+                        lab.write(rel, text); ops.append(("restore-earlier-content", rel))
+                elif r < 0.50 and names:
                     rel = rng.choice(names)
                     lab.write(rel, files[rel].rstrip("\n") + "\n\n- brand new note +fresh\n"); ops.append(("add-note", rel))
                 elif r < 0.55 and names:
@@ -177,6 +195,76 @@ def _directed(pages, edited):
     return None
 
 
+def run_script(pages, steps):
+    """A scripted history through the real handlers, then a plain reindex; the index must equal a rebuild of the final files.
+    steps: ("day", "2024-04-02") | ("write", page, text) | ("sub", page, old, new) | ("reindex",) | ("reindex", [pages])"""
+    from freezegun import freeze_time
+
+    day = "2024-04-01"
+    with Lab() as lab:
+        for rel, t in pages.items():
+            lab.write(rel, t)
+        with freeze_time(day + " 09:00:00"):
+            lab.create()
+        try:
+            for st in steps:
+                if st[0] == "day":
+                    day = st[1]
+                    continue
+                with freeze_time(day + " 09:00:00"):
+                    if st[0] == "write":
+                        lab.write(st[1], st[2])
+                    elif st[0] == "sub":
+                        t = lab.read(st[1])
+                        assert st[2] in t, (st, t)
+                        lab.write(st[1], t.replace(st[2], st[3]))
+                    elif st[0] == "reindex":
+                        lab.reindex(st[1] if len(st) > 1 else None)
+            with freeze_time(day + " 18:00:00"):
+                lab.reindex()
+                lab.reindex()
+        except AssertionError:
+            raise
+        except Exception as e:
+            return f"reindex raised {type(e).__name__}: {str(e)[:200]}"
+        with freeze_time(day + " 18:00:00"):
+            try:
+                got = _dump(lab)
+            except Exception as e:
+                return f"reading the index after the history raised {type(e).__name__}: {str(e)[:200]}"
+            final = lab.files()
+            with Lab() as fresh:
+                for rel, t in final.items():
+                    fresh.write(rel, t)
+                fresh.create()
+                if fresh.files() != final:
+                    return None
+                want = _dump(fresh)
+        if got != want:
+            for a, b in zip(got, want):
+                if a != b:
+                    k = [k for k in a if a[k] != b[k]][0]
+                    return f"{a['page']}:{a['line']} {k}: index after the history {a[k]!r} != rebuild {b[k]!r}"
+            return f"index after the history has {len(got)} notes, a rebuild {len(want)}"
+    return None
+
+
+_ML = "# Multi\n\n- 240301#m1 shopping list +home\n  * milk\n  * eggs  and  bread\no P2 240301#m2 plain todo @ctx\n- 240301 240301#m3 explicit modify date equal to the create date\n\n"
+SCRIPTS = [
+    ("restore-after-explicit-path-reindex", {"r.zo": "# R\n\n- 240301#r1 first +keep\n- 240301#r2 second @home\n- 240301#r3 third\n\n"},
+     [("sub", "r.zo", "- 240301#r2 second @home\n", ""), ("reindex", ["r.zo"]), ("write", "r.zo", "# R\n\n- 240301#r1 first +keep\n- 240301#r2 second @home\n- 240301#r3 third\n\n")]),
+    ("restore-after-plain-reindex", {"r.zo": "# R\n\n- 240301#r1 first +keep\n- 240301#r2 second @home\n\n"},
+     [("sub", "r.zo", "- 240301#r2 second @home\n", ""), ("reindex",), ("write", "r.zo", "# R\n\n- 240301#r1 first +keep\n- 240301#r2 second @home\n\n")]),
+    ("multi-line-note-edited-on-two-later-days", {"m.zo": _ML},
+     [("day", "2024-04-02"), ("sub", "m.zo", "* milk", "* oat milk"), ("reindex",), ("day", "2024-04-04"), ("sub", "m.zo", "* oat milk", "* soy milk"), ("reindex",)]),
+    ("first-line-edited-on-two-later-days-explicit-path", {"m.zo": _ML},
+     [("day", "2024-04-02"), ("sub", "m.zo", "shopping list", "shopping  list v2"), ("reindex", ["m.zo"]), ("day", "2024-04-03"), ("sub", "m.zo", "list v2", "list v3"),
+      ("sub", "m.zo", "plain todo", "plain todo edited"), ("sub", "m.zo", "equal to the create date", "equal to the create date, edited"), ("reindex", ["m.zo"])]),
+    ("modify-date-word-removed-while-editing", {"m.zo": _ML},
+     [("day", "2024-04-02"), ("sub", "m.zo", "plain todo", "plain todo edited"), ("reindex",), ("day", "2024-04-05"), ("sub", "m.zo", "o P2 240402 240301#m2 plain todo edited", "o P2 240301#m2 plain todo edited twice"), ("reindex",)]),
+]
+
+
 def is_f9(case) -> bool:
     """Known finding F9: the history deletes or renames a page; its notes survive every later reindex."""
     return any(o[0] in ("delete-page", "rename-page") for o in case.get("ops", [])) and "that a rebuild lacks" in case.get("error", "")
@@ -191,8 +279,6 @@ def histories(tier, seed):
         pages = {k: re.sub(r"^(-|[ox~<>])( P[0-9])?  +", lambda m: m.group(0).rstrip() + " ", v, flags=re.M) for k, v in pages.items()}
         # no ZID-less note with a leading modify date: that is C05's known finding F17, not a reindex question
         pages = {k: re.sub(r"^((?:-|[ox~<>])(?: P[0-9])? )[0-9]{6} (?![0-9]{6}#)", r"\1", v, flags=re.M) for k, v in pages.items()}
-        # no explicit modify date equal to the create date: that is C11's known finding F18
-        pages = {k: re.sub(r"^((?:-|[ox~<>])(?: P[0-9])? )([0-9]{6}) \2#", r"\1\2#", v, flags=re.M) for k, v in pages.items()}
         sub = random.Random(rng.random())
         err, ops = run_history(pages, sub, 5 if tier == "quick" else 9)
         nontriv += len(ops) >= 3
@@ -212,7 +298,11 @@ def histories(tier, seed):
         err = _directed(pages, pair[1])
         if err:
             fails.append({"pages": pages, "error": err, "ops": [["directed-wildcard-pair", pair[0], pair[1]]]})
-    return {"name": "history_vs_rebuild", "bound": f"{n} generated directories x histories of {5 if tier == 'quick' else 9} steps (edit/add/delete/move notes, add/delete/rename pages, header edits, reindex with/without paths, day advancing), final plain reindex compared with a fresh db create of the final files",
+    for name, pages, steps in SCRIPTS:
+        err = run_script(pages, steps)
+        if err:
+            fails.append({"pages": pages, "error": err, "ops": [["scripted", name]] + [list(map(str, st)) for st in steps]})
+    return {"name": "history_vs_rebuild", "bound": f"{n} generated directories x histories of {5 if tier == 'quick' else 9} steps (edit/add/delete/move notes, continuation-line edits, restoring earlier contents, add/delete/rename pages, header edits, reindex with/without paths, day advancing) + {len(SCRIPTS)} scripted histories + 3 wildcard/case page-name pairs, final plain reindex compared with a fresh db create of the final files",
             "evaluations": n, "distinct_nontrivial": nontriv, "failures": fails, "samples": samples, "replay_fn": "replay_history"}
 
 
